@@ -412,7 +412,9 @@ async fn fd_case(ty: Ty, tr: crate::e4::Tr, reset: bool, cycles: usize) -> Optio
     use crate::e4::{self, RawStream};
     use std::time::Duration;
     let what = format!("{} over {}: {} cycles of connect, handshake, traffic, {}", ty.name(), tr.name(), cycles, if reset { "abortive close (RST)" } else { "orderly close" });
-    let mut sock = AnySocket::new(ty, None);
+    let mut sock = AnySocket::new_unmonitored(ty, None);
+    // a monitor is installed (and kept, never drained) so that the event paths run too
+    let _monitor = sock.monitor();
     sock.subscribe_all().await;
     let ep = match sock.bind(&e4::bind_spec(tr)).await {
         Ok(e) => e,
